@@ -239,6 +239,10 @@ pub fn generate(seed: u64, w: &World, with_big: bool, with_stalls: bool) -> Valu
         "authorization": authorization,
         "headers": headers,
         "output": output,
+        // how the --output path is spelled: absolute, relative to the working directory, or
+        // relative through a sub-directory; and the environment the tool starts in
+        "output_form": *rng.pick(&["abs", "abs", "rel", "rel-sub"]),
+        "env": *rng.pick(&["clean", "clean", "rust-log-trace", "rust-log-cli-info", "locale-tz", "rust-log-trace"]),
         "fixture": fx.name,
         "script": script,
     })
